@@ -176,6 +176,7 @@ def ro_session(sh, FSM, path, case, label, expect=None):
             # iteration over a partially written header works: tolerated there, a violation elsewhere
             if 'torn' in label:
                 sh.count('ro_observation_raised_on_torn_tail')
+                sh.note('ro_torn_tail_exceptions', '%s:%s' % (type(e).__name__, str(e)[:60]))
             else:
                 sh.violation('c09:read-only-read-api-raises-%s' % type(e).__name__, {'label': label, 'exc': repr(e)[:200]}, case)
         t = TransactionMetaData()
